@@ -197,6 +197,17 @@ Theorem C12_step_dominated_throughout : forall (V : list Z) (s : state) (u v t :
 Proof. exact process_edge_dominated. Qed.
 Print Assumptions C12_step_dominated_throughout.
 
+(* non-vacuity of the hypotheses of C12_step_dominated_throughout: the state built by read_edges from a simple graph is
+   coherent and holds only input values; (0,2) and its endpoints are in range *)
+Example C12_step_dominated_nonvacuous :
+  Coh (read_edges ex_graph) /\ tbl_ok (map snd ex_graph) (read_edges ex_graph) /\
+  in_range (read_edges ex_graph) 0 /\ in_range (read_edges ex_graph) 2.
+Proof.
+  destruct C12_table_variants_agree_nonvacuous as [H1 H2].
+  split; [apply read_edges_coh; split; assumption|]. split; [apply read_edges_ok; apply incl_refl|].
+  split; vm_compute; split; congruence.
+Qed.
+
 (* The decisive clause of the property.  NOT proved here: it is the theorem of Boissonnat-Pritam (SoCG 2020) and
    Glisse-Pritam (SoCG 2022) that removing / delaying dominated edges preserves the persistence module of the flag
    filtration; a formal proof needs simplicial homology, simple collapses of flag complexes and persistence modules,
